@@ -239,16 +239,16 @@ def run_one(spec):
                          stderr=subprocess.PIPE)
     try:
         reached = os.path.join(pd, "reached")
-        deadline = time.time() + 40
+        deadline = time.time() + 150
         while not os.path.exists(reached):
             if p.poll() is not None:
                 break
             if time.time() > deadline:
                 p.kill()
                 p.wait()
-                res["status"] = "machinery: pause point not reached in 40 s"
+                res["status"] = "slow: pause point not reached in 150 s"
                 return res
-            time.sleep(0.0005)
+            time.sleep(0.001)
         if not os.path.exists(reached):
             res["status"] = "not-reached"
             res["rc"] = p.returncode
@@ -348,7 +348,16 @@ def probe(base, t0, threads, fork, n=3):
     order = order[order.index(FIRST_POINT):order.index(LAST_POINT) + 1]
     pts = [(pt, all(pt in m for m in main_sets)) for pt in order
            if all(pt in a for a in all_sets)]
-    return pts, None
+    # A main-thread `exit:A` directly followed (in the log of every probe, no line of any thread
+    # in between) by a main-thread `enter:B` is one phase boundary with two hooks: keep `enter:B`.
+    pos = [{f[0]: n for n, f in enumerate(s)} for s in seqs]
+    mains = [pt for pt, m in pts if m]
+    same_boundary = set()
+    for a, b in zip(mains, mains[1:]):
+        if a.startswith("exit:") and b.startswith("enter:") and \
+                all(p[b] == p[a] + 1 for p in pos):
+            same_boundary.add(a)
+    return [(pt, m, pt in same_boundary) for pt, m in pts], None
 
 
 def manual(spec):
@@ -403,11 +412,13 @@ def main():
             pts, err = probe(base, t0, threads, False)
             if err:
                 chk.machinery(err)
-            main_pts = [p for p, m in pts if m]
+            main_pts = [p for p, m, _ in pts if m]
+            boundaries = [p for p, m, dup in pts if m and not dup]
             points_info[f"threads={threads},no-fork"] = {
-                "phase_points_in_window": len(pts), "main_thread_points": len(main_pts)}
+                "phase_points_in_window": len(pts), "main_thread_points": len(main_pts),
+                "main_thread_phase_boundaries": len(boundaries)}
             if chk.thorough:
-                use = main_pts
+                use = boundaries
             else:
                 missing = [p for p in QUICK_POINTS if p not in main_pts]
                 if missing:
@@ -417,22 +428,28 @@ def main():
         pts, err = probe(base, t0, 4, True)
         if err:
             chk.machinery(err)
-        fork_all = [p for p, _ in pts]
+        fork_all = [p for p, _, _ in pts]
         missing = [p for p in FORK_POINTS if p not in fork_all]
         if missing:
             chk.machinery(f"fork-mode instants missing: {missing}")
         fork_mods = MODS if chk.thorough else ["rewrite", "truncate-zero", "rename-replace", "touch"]
         specs = []
-        for threads, fork, use in configs:
-            for kind, _, _ in KINDS:
-                for mod in MODS:
-                    for pt in use:
-                        specs.append(dict(kind=kind, mod=mod, point=pt, threads=threads,
-                                          fork=fork))
         for kind, _, _ in KINDS:
             for mod in fork_mods:
                 for pt in (FORK_POINTS if chk.thorough else FORK_POINTS[1:3]):
                     specs.append(dict(kind=kind, mod=mod, point=pt, threads=4, fork=True))
+        # Enumeration order: instants in 16 interleaved passes over the time line, so that a run
+        # that hits its wall-time cap has still covered every (kind, modification, threads) at
+        # instants spread over the whole link. The order does not change the set.
+        grid = []
+        for threads, fork, use in configs:
+            for n, pt in enumerate(use):
+                for kind, _, _ in KINDS:
+                    for mod in MODS:
+                        grid.append(((n % 16, n), dict(kind=kind, mod=mod, point=pt,
+                                                       threads=threads, fork=fork)))
+        grid.sort(key=lambda x: x[0])
+        specs += [g for _, g in grid]
         if chk.seed:
             import random
             random.Random(chk.seed).shuffle(specs)
@@ -457,6 +474,9 @@ def main():
             chk.machinery(f"{r['status']} ({s['kind']} {s['mod']} {s['point']})")
         if r["status"] == "not-reached":
             bump("point_not_reached")
+            continue
+        if r["status"].startswith("slow"):
+            bump("not_evaluated_machine_too_slow")
             continue
         bump("scope:" + r["scope"])
         cls = MOD_CLASS[s["mod"]]
@@ -499,6 +519,10 @@ def main():
                                   "files": FILES_DOC, "manual": manual(s)})
     if counts.get("point_not_reached", 0) > len(results) // 50:
         chk.machinery(f"{counts['point_not_reached']} of {len(results)} pause points not reached")
+    slow = counts.get("not_evaluated_machine_too_slow", 0)
+    if slow > len(results) // 100:
+        chk.machinery(f"{slow} of {len(results)} runs did not reach their pause point in 150 s")
+    capped = capped or slow > 0
     if in_scope < 2:
         chk.machinery("vacuous: fewer than two in-scope runs")
     chk.coverage = {
@@ -508,7 +532,8 @@ def main():
                 "the paused wild process (/proc/pid/maps), the modification moved its mtime by "
                 "~1 h, and the harness marker 'mod-end' precedes wild's 'enter:Verify inputs "
                 "unchanged' in the shared phase log",
-        "planned_runs": len(specs), "capped": capped, "exhaustive": not capped,
+        "planned_runs": len(specs), "capped": capped,
+        "exhaustive": not capped and not counts.get("point_not_reached"),
         "input_kinds": [k for k, _, _ in KINDS], "modification_kinds": MODS,
         "instants": points_info, "quick_instants": None if chk.thorough else QUICK_POINTS,
         "fork_instants": FORK_POINTS if chk.thorough else FORK_POINTS[1:3],
@@ -518,8 +543,10 @@ def main():
         "samples": samples,
     }
     chk.assumptions = [
-        "pausing is done at phase points that every probe run passed on the main thread; whether "
-        "the modification preceded the verify phase is read from the phase log, not assumed",
+        "pausing is done at phase points that every probe run passed on the main thread (an "
+        "`exit:A` hook directly followed by an `enter:B` hook is one boundary; the pause is at "
+        "`enter:B`); whether the modification preceded the verify phase is read from the phase "
+        "log, not assumed",
         "a file that appears in /proc/<pid>/maps of the paused wild has had its mtime recorded "
         "(FileData::open reads the mtime before mmap)",
         "tmpfs (/dev/shm) timestamps; all inputs carry an mtime one hour in the past",
